@@ -96,9 +96,12 @@ int c_ensrank(double eps, int nval, int ncol, double* sim, \
                 else valuenext = value+1.;
                 index = ensemb[j][1];
 
-                /* Value differences */
-                diff = fabs(value-valueprev);
-                diffnext = fabs(value-valuenext);
+                /* Value differences. The first element has no predecessor
+                 * and the last one no successor: they always start and end
+                 * a sequence (the sentinels value+1 are absorbed by large
+                 * values and hidden when eps>1) */
+                diff = j>0 ? fabs(value-valueprev) : eps;
+                diffnext = j<2*ncol-1 ? fabs(value-valuenext) : eps;
 
                 /* Start a tie sequence */
                 if(index<ncol && diff>=eps)
